@@ -36,6 +36,7 @@ struct Outc {
 
 async fn scenario(role: Role, rng: &mut Rng, ch: &mut dyn Choose, long_completed: bool) -> Outc {
     let app = App::new("c12");
+    app.refusals_need_an_ack.set(true);
     let mut cfg = ConnCfg::new(role);
     cfg.max_qos = 2;
     let limit: u16 = *rng.pick(&[0u16, 1, 2, 3, 4]);
@@ -357,18 +358,22 @@ async fn scenario(role: Role, rng: &mut Rng, ch: &mut dyn Choose, long_completed
         }
     }
     // (c) nothing is left unhandled
+    // every protocol packet (not PUBLISH) goes through a buffering service of 16 places; a burst
+    // beyond that is the wedge listed as an open finding under C04 (DESIGN.md §10.2): a class of its own
+    let proto_sent = app.peer_pkts.borrow().iter().filter(|(_, p)| !matches!(p, R::Publish { .. } | R::Connect { .. })).count();
+    let burst = if proto_sent > 16 { " (more than 16 protocol packets sent, the connection stops reading)" } else { "" };
     let ctl_handled = app.count(|e| matches!(e, Ev::ProtoExit { .. })) ;
     let ctl_entered = app.count(|e| matches!(e, Ev::ProtoEnter { kind: "subscribe", .. }));
     if stops.is_empty() && !c.done() && ctl_entered != ctl_sent {
         o.violations.push((
-            format!("control packets the peer sent were never handled although every handler completed ({ctl_entered} of {ctl_sent})"),
+            format!("control packets the peer sent were never handled although every handler completed ({ctl_entered} of {ctl_sent}){burst}"),
             format!("max_receive {limit}, max_receive_size {size_limit}, protocol handler results {ctl_handled}, unread bytes at the peer side {}", c.peer.unread_by_endpoint()),
         ));
     }
     if stops.is_empty() && !c.done() {
         if o.handled != o.sent {
             o.violations.push((
-                format!("packets the peer sent were never handled although every handler completed ({} of {})", o.handled, o.sent),
+                format!("packets the peer sent were never handled although every handler completed ({} of {}){burst}", o.handled, o.sent),
                 format!("max_receive {limit}, max_receive_size {size_limit}, unread bytes at the peer side {}", c.peer.unread_by_endpoint()),
             ));
         } else {
